@@ -202,14 +202,16 @@ def sign_fits(want, sgn):
 def allowed(e):
     if e['k'] == 'err':
         return 'err'
-    return 'valOrErr' if e['k'] in ('offreal', 'underflow', 'silent') else 'val'
+    return 'valOrErr' if e['k'] in ('offreal', 'underflow', 'silent', 'silentsqrt', 'numberlike') else 'val'
 
 
 def value_fits(e, o, raw=None):
     k = e['k']
     if k in ('exact', 'silent'):
         return o['sh'] == list(e['v']['sh']) and o['q'] == [[list(g[0]), list(g[1])] for g in e['v']['e']]
-    if k == 'sqrtof':
+    if k == 'numberlike':
+        return True
+    if k in ('sqrtof', 'silentsqrt'):
         return o['sh'] == [] and o['real'] and o['sgn'] >= 0 and o['sq'] == [list(e['q'])]
     if k == 'angle':
         return o['sh'] == [] and o['real'] and micro_in(o['mu'], e['lo'], e['hi'])
@@ -277,8 +279,10 @@ def describe(e):
     if k in ('exact', 'silent'):
         es = ['%s%s' % (fr(g[0]), ('%+si' % fr(g[1])) if g[1][0] else '') for g in e['v']['e']]
         return ('the value %s of shape %s' % (es, list(e['v']['sh']))) + (' or an error' if k == 'silent' else '')
-    if k == 'sqrtof':
-        return 'the non-negative root of %s' % fr(e['q'])
+    if k in ('sqrtof', 'silentsqrt'):
+        return 'the non-negative root of %s%s' % (fr(e['q']), ' or an error' if k == 'silentsqrt' else '')
+    if k == 'numberlike':
+        return 'a one-entry array where a number is expected: a finite value or an error'
     if k == 'angle':
         return 'an angle in [%s, %s] pi' % (fr(e['lo']), fr(e['hi']))
     if k == 'defined':
@@ -488,8 +492,8 @@ def array_text(a, rng):
         return gauss_text(e[0], rng)
     if len(sh) == 1:
         return '[' + rng.choice([', ', ',']).join(gauss_text(z, rng) for z in e) + ']'
-    rows = [e[i * sh[1]:(i + 1) * sh[1]] for i in range(sh[0])]
-    return '[' + ', '.join('[' + ', '.join(gauss_text(z, rng) for z in r) + ']' for r in rows) + ']'
+    m = len(e) // sh[0]
+    return '[' + ', '.join(array_text({'sh': sh[1:], 'e': e[i * m:(i + 1) * m]}, rng) for i in range(sh[0])) + ']'
 
 
 def rarray(rng, shape_kind):
@@ -518,6 +522,10 @@ def rarray(rng, shape_kind):
         if n == 4:
             frac = False
         return {'sh': [n, n], 'e': [ent() for _ in range(n * n)]}
+    if shape_kind == 'tensor':
+        frac = False
+        sh = list(rng.choice([(2, 2, 2), (2, 2, 2), (2, 2, 3), (3, 2, 2), (3, 3, 3), (3, 3, 2), (1, 1, 1), (2, 3, 2)]))
+        return {'sh': sh, 'e': [ent() for _ in range(sh[0] * sh[1] * sh[2])]}
     m, n = rng.choice([(2, 3), (3, 2), (2, 4), (4, 2), (3, 4), (1, 3), (3, 1)])
     return {'sh': [m, n], 'e': [ent() for _ in range(m * n)]}
 
@@ -544,6 +552,8 @@ def rand_call(rng, i):
         kinds = [rng.choice(['scalar', 'vec'])]
     else:
         kinds = list(NATURAL.get(f, ['scalar']))
+    if f in ('det', 'trace', 'cross', 'abs') and rng.random() < 0.2:
+        kinds[0] = 'tensor'                       # three axes: never a square matrix / 3-vector / vector
     r = rng.random()
     if r < 0.12:                                  # wrong count
         kinds = kinds[:-1] if (len(kinds) > 1 and rng.random() < 0.5) else kinds + [kinds[-1]]
@@ -551,11 +561,11 @@ def rand_call(rng, i):
             kinds = ['scalar', 'scalar']
     elif r < 0.3:                                 # some argument of another shape
         j = rng.randrange(len(kinds))
-        kinds[j] = rng.choice(['scalar', 'vec', 'vec3', 'square', 'rect'])
+        kinds[j] = rng.choice(['scalar', 'vec', 'vec3', 'square', 'rect', 'tensor', 'tensor'])
     args = []
     for k in kinds:
         if k == 'any':
-            k = rng.choice(['vec', 'square', 'rect', 'square', 'scalar'])
+            k = rng.choice(['vec', 'square', 'rect', 'square', 'scalar', 'tensor'])
         elif k == 'anys':
             k = rng.choice(['scalar', 'scalar', 'vec', 'square'])
         a = rarray(rng, k)
